@@ -129,8 +129,38 @@ fn stress(seed: u64, j: usize, readers: usize, millis: u64, mode: u64) -> Outcom
         .collect();
     let mut t = HopSpec::simple(tcfg.target, 800_000);
     t.quote = Quote::Full;
-    let topo = Topology { hops, target: t, tcp: TcpMode::Rst };
-    let world = World::new(world_cfg(topo, seed ^ j as u64));
+    let mut hops = hops;
+    // the shape of the history: a stable answering path | lossy hops and target, so that the
+    // path length of the rounds varies and some rounds get no response at all | a network that
+    // is silent at first | a long silent path probed up to ttl 254
+    let shape = (j / 2) % 4;
+    match shape {
+        1 => {
+            for h in &mut hops {
+                h.loss_pct = 45;
+            }
+            t.loss_pct = 60;
+        }
+        3 => {
+            for h in &mut hops {
+                h.behaviour = Behaviour::Silent;
+            }
+            t.behaviour = Behaviour::Silent;
+            tcfg.max_ttl = 254;
+            tcfg.max_inflight = 255;
+            // (one probe goes out per loop iteration, i.e. per read timeout on a silent network)
+            tcfg.min_round = ms(300);
+            tcfg.max_round = ms(300);
+        }
+        _ => {}
+    }
+    let topo = Topology { hops, target: t, tcp: if shape == 3 { TcpMode::Silent } else { TcpMode::Rst } };
+    let mut wcfg = world_cfg(topo, seed ^ j as u64);
+    if shape == 2 {
+        // nothing answers during the first 30 rounds (10 ms rounds in virtual time)
+        wcfg.blackouts.push((0, 300_000_000));
+    }
+    let world = World::new(wcfg);
     let site = format!("{}/readers{readers}", cell.name());
     let replay = json!({"how": format!("vcheck C20 --seed {seed} --only {j}"), "scenario": j, "cell": cell.name(), "readers": readers, "failpoint_mode": mode});
     let tracer = match tcfg.builder().build() {
@@ -153,9 +183,10 @@ fn stress(seed: u64, j: usize, readers: usize, millis: u64, mode: u64) -> Outcom
     std::thread::scope(|sc| {
         // the tracer: virtual time, runs until the world is told to stop (a fatal fault)
         let (w2, tr2, rounds2, stop2, done2, result2) = (world.clone(), tracer.clone(), rounds.clone(), stop.clone(), done.clone(), run_result.clone());
+        let tracer_panics = panics.clone();
         sc.spawn(move || {
             let guard = w2.attach(0);
-            let res = tr2.run_with(|round| {
+            let res = crate::framework::guarded(|| tr2.run_with(|round| {
                 let c = stamp();
                 rounds2.lock().unwrap().push(Rnd { probes: round.probes.to_vec(), largest: round.largest_ttl.0, reason: round.reason, c });
                 if stop2.load(Ordering::Relaxed) {
@@ -166,8 +197,12 @@ fn stress(seed: u64, j: usize, readers: usize, millis: u64, mode: u64) -> Outcom
                         w.cfg.faults.at_call.insert(next + k, crate::world::Fault { errno: libc::EBADF });
                     }
                 }
-            });
-            *result2.lock().unwrap() = Some(res.map_err(|e| e.to_string()));
+            }));
+            match res {
+                Ok(res) => *result2.lock().unwrap() = Some(res.map_err(|e| e.to_string())),
+                // the tracer thread itself panicked (while applying a round, for instance)
+                Err(p) => tracer_panics.lock().unwrap().push(p),
+            }
             done2.store(true, Ordering::SeqCst);
             drop(guard);
         });
@@ -367,12 +402,14 @@ fn stress(seed: u64, j: usize, readers: usize, millis: u64, mode: u64) -> Outcom
     o.count("snapshots_checked", snaps.len() as u64);
     o.count("snapshots_non_empty", nonempty);
     o.count("rounds_published", rounds.len() as u64);
+    o.observe("largest_round_sizes", format!("{}", rounds.iter().map(|r| r.probes.len()).max().unwrap_or(0)));
     o.count("clears", clears.len() as u64);
     o.count("snapshots_overlapping_a_round_application", overlapped);
     o.count("snapshots_after_a_clear", after_clear);
     o.count("failpoint_hits", FAILPOINT_HITS.swap(0, Ordering::Relaxed));
     o.count("distinct_n_start_pairs", pairs.len() as u64);
     o.observe("reader_counts", readers.to_string());
+    o.observe("history_shapes", ["stable", "lossy", "silent-at-first", "silent-254-hops"][shape]);
     o.observe("cells", cell.name());
     if overlapped > 0 && after_clear > 0 {
         o.nontrivial = Some(format!("{site}|{mode}|{j}"));
@@ -387,13 +424,13 @@ fn stress(seed: u64, j: usize, readers: usize, millis: u64, mode: u64) -> Outcom
 
 pub fn run(tier: Tier, seed: u64, only: Option<usize>) -> i32 {
     let mut rep = Report::new("C20", "exploration", tier, seed);
-    rep.rule = "run = one real tracer (real RwLock<State>, real Strategy over the simulated world in virtual time, 10 ms rounds, Paris/Dublin cells register flows) on its own OS thread + R in {1,4,12} reader threads calling Tracer::snapshot() in a loop + one thread calling Tracer::clear() every 0.2..20 ms (every other run: every 0..120 us, with max-flows 1), for 0.7 s (thorough 8 s) of wall time per run; every operation is stamped from one atomic counter before the call and after the return, the publish callback stamps and copies every round; failpoints between the default-flow and per-flow update and around the lock scopes yield / sleep at random; offline, every snapshot reporting n rounds with latest id b must hash (all getters of all flows, floats by bit pattern) to the state obtained by applying rounds b-n+1..=b to an empty State with the real single-threaded code, and the stamps must allow that linearisation (not stale, not from the future, missing prefix explained by a clear, no clear entirely between); runs execute one at a time (they use all cores themselves); non-trivial = at least one snapshot overlapped the application of a round and at least one followed a clear".into();
+    rep.rule = "run = one real tracer (real RwLock<State>, real Strategy over the simulated world in virtual time, 10 ms rounds, Paris/Dublin cells register flows; history shapes: stable answering path, lossy hops and target, silent for the first 30 rounds, silent path probed up to ttl 254) on its own OS thread + R in {1,4,12} reader threads calling Tracer::snapshot() in a loop + one thread calling Tracer::clear() every 0.2..20 ms (every other run: every 0..120 us, with max-flows 1), for 0.7 s (thorough 8 s) of wall time per run; every operation is stamped from one atomic counter before the call and after the return, the publish callback stamps and copies every round; failpoints between the default-flow and per-flow update and around the lock scopes yield / sleep at random; offline, every snapshot reporting n rounds with latest id b must hash (all getters of all flows, floats by bit pattern) to the state obtained by applying rounds b-n+1..=b to an empty State with the real single-threaded code, and the stamps must allow that linearisation (not stale, not from the future, missing prefix explained by a clear, no clear entirely between); runs execute one at a time (they use all cores themselves); non-trivial = at least one snapshot overlapped the application of a round and at least one followed a clear".into();
     rep.assumptions = vec![
         "application intervals of rounds are bracketed by the publish callback stamps of rounds k-1 and k (conservative: can only make the checker more permissive)".into(),
         "interleavings come from the OS scheduler on 16 cores plus the failpoint delays; coverage is reported as counts of snapshots that overlapped a round application / followed a clear".into(),
     ];
     rep.required_clauses = vec!["snapshot_is_whole_consecutive_rounds", "snapshot_respects_real_time_order"];
-    let runs = tier.pick(6, 24);
+    let runs = tier.pick(8, 24);
     let millis = tier.pick(700, 8_000);
     let plan = |j: usize| ([1usize, 4, 12][j % 3], [1u64, 2, 0][(j / 3) % 3]);
     let millis = if tier == Tier::Quick { 900 } else { millis };
